@@ -148,9 +148,11 @@ CONSTANTS
     MaxCap = {cfg['max']}
     Retries = {cfg.get('retries', 1)}
     TaskIds = {{{', '.join(str(i) for i in range(1, 13))}}}
-    MaxConnId = 100000
+    MaxConnId = {cfg['max'] + len(cfg['clients']) + 4}
     FailBudget = 100000
     MaxOps = 100000
+    TrackAct = TRUE
+    FairPolicy = FALSE
 {extra}
 CHECK_DEADLOCK FALSE
 '''
